@@ -1,2 +1,3 @@
+@delay.setter
 def spec(self, value):
     WeightBiasDelayMixin.delay.fset(self, value * self.mask)
